@@ -77,6 +77,8 @@ def rich_image(rng, ft, **geom):
     files.append((None, b"SUBDIR     ", 0x10, sc, sub))
     files.append((None, None, 0, inner_c, inner_d)) if False else None
 
+    roomy = ft == 32 or geom.get("rootent", 64) >= 64
+
     def root_extra(root):
         r = root
         r += dirent(b"\xe5LDFILE TXT", 0x20, 0, 0)                                          # deleted slot
@@ -86,11 +88,15 @@ def rich_image(rng, ft, **geom):
         s = lfn_slots("missing ordinal in the middle of it.txt", b"MISSIN~1TXT")
         r += s[:32] + s[64:] + dirent(b"MISSIN~1TXT", 0x20, 0, 0)                          # ordinal 2 of 3 missing
         r += dirent(b"\x05LPHA   TXT", 0x20, 0, 0)                                          # 0x05 lead byte = 0xE5
+        if roomy:                                                                            # 0x05 lead byte below a valid long-name set:
+            r += lfn_slots("sigma starts the alias.txt", b"\x05IGMAS~1TXT") + dirent(b"\x05IGMAS~1TXT", 0x20, 0, 0)   # checksum over the STORED bytes
         r += b"\0" * 32 + dirent(b"AFTEREND   ", 0x20, 0, 0)                                # behind the end mark
         return r
     exp["/WRONGC~1.TXT"] = ("f", 0, b"")
     exp["/MISSIN~1.TXT"] = ("f", 0, b"")
     exp["/" + b"\xe5LPHA".decode("ibm437") + ".TXT"] = ("f", 0, b"")
+    if roomy:
+        exp["/sigma starts the alias.txt"] = ("f", 0, b"")
     kw = dict(geom)
     kw.update(files=files, root_extra=root_extra, label="FOREIGN", rootent=geom.get("rootent", 64))
     if ft == 32:
